@@ -210,7 +210,8 @@ def eval_shards(outdir, timeout=900):
     failing, errors, n_eval = [], [], 0
 
     def one(path):
-        rc, out = run(["coqc", "-noglob", "-Q", COQ, "TV", path], timeout=timeout)
+        # (large case literals: the parser recurses deeply -- lift the stack limit for this process only)
+        rc, out = run(["bash", "-c", 'ulimit -s unlimited 2>/dev/null || ulimit -s 1000000 2>/dev/null; exec coqc -noglob -Q "$0" TV "$1"', COQ, path], timeout=timeout)
         return path, rc, out
 
     # shared lock: a concurrent check may not recompile .vo files (e.g. Generated/Constants.vo) while
